@@ -159,7 +159,9 @@ def body_core(case, ctx):
             tails.append(part[j] + g.uniform(0.2, 0.8) * gaps[j])
     width = float(est.h) if isinstance(est, GaussianKDE) else sd
     tails += [srt[0] - g.uniform(0.5, 3.0) * width, srt[-1] + g.uniform(0.5, 3.0) * width]
-    q = np.unique(np.concatenate([q, np.clip(tails, lo, hi)]))
+    # ... and far beyond the data on both sides (the cumulative function is defined everywhere)
+    far = [srt[0] - 10.0 ** g.uniform(2, 6) * sd, srt[-1] + 10.0 ** g.uniform(2, 6) * sd]
+    q = np.unique(np.concatenate([q, np.clip(tails, lo, hi), far]))
     in_gap = int(np.sum((q < srt[11]) | (q > srt[-12])))
     ctx.event(f"cdf-tail-points={in_gap}")
     with np.errstate(all="ignore"):
